@@ -122,6 +122,10 @@ def write_ruleset(path, spec):
             files[cat].append(dfn)
             write_lines(os.path.join(path, FOLDER[cat], dfn), [f"{v}\t{p}" for v, p in decoy], enc)
         files[cat].append(fn)
+        if name in spec.get('listed_twice', []):
+            # the file list of a section names the same file twice (two lists merged by hand): loading a file again replaces what
+            # the first loading put under the variable
+            files[cat].append(fn)
         write_lines(os.path.join(path, FOLDER[cat], fn), [f"{v}\t{p}" for v, p in items], enc, final_newline=name not in nf)
     for cat in FOLDER:
         os.makedirs(os.path.join(path, FOLDER[cat]), exist_ok=True)
